@@ -89,6 +89,32 @@ where
         }
     }
 
+    /// Interfaces and type aliases are hoisted: those of a statement list are registered before
+    /// anything in the list is visited, so a `defineComponent` call may precede the types it uses.
+    fn register_type_decl(&mut self, decl: &Decl) {
+        match decl {
+            Decl::TsInterface(interface) => self.register_interface(interface),
+            Decl::TsTypeAlias(alias) if self.options.resolve_type => {
+                self.type_aliases.insert(
+                    (alias.id.sym.clone(), alias.id.ctxt),
+                    (*alias.type_ann).clone(),
+                );
+            }
+            _ => {}
+        }
+    }
+
+    fn register_interface(&mut self, interface: &TsInterfaceDecl) {
+        if self.options.resolve_type {
+            let key = (interface.id.sym.clone(), interface.id.ctxt);
+            if let Some(merged) = self.interfaces.get_mut(&key) {
+                merged.body.body.extend_from_slice(&interface.body.body);
+            } else {
+                self.interfaces.insert(key, interface.clone());
+            }
+        }
+    }
+
     fn import_from_vue(&mut self, item: &'static str) -> Ident {
         self.vue_imports
             .entry(item)
@@ -1252,6 +1278,11 @@ where
         let outer_vars = mem::take(&mut self.injecting_vars);
         let outer_slot_counter = mem::replace(&mut self.slot_counter, 1);
 
+        stmts.iter().for_each(|stmt| {
+            if let Stmt::Decl(decl) = stmt {
+                self.register_type_decl(decl);
+            }
+        });
         stmts.visit_mut_children_with(self);
 
         if !self.injecting_consts.is_empty() {
@@ -1445,32 +1476,19 @@ where
         }
     }
 
-    fn visit_mut_ts_interface_decl(&mut self, ts_interface_decl: &mut TsInterfaceDecl) {
-        ts_interface_decl.visit_mut_children_with(self);
-        if self.options.resolve_type {
-            let key = (ts_interface_decl.id.sym.clone(), ts_interface_decl.id.ctxt);
-            if let Some(interface) = self.interfaces.get_mut(&key) {
-                interface
-                    .body
-                    .body
-                    .extend_from_slice(&ts_interface_decl.body.body);
-            } else {
-                self.interfaces.insert(key, ts_interface_decl.clone());
+    fn visit_mut_module_items(&mut self, items: &mut Vec<ModuleItem>) {
+        items.iter().for_each(|item| match item {
+            ModuleItem::Stmt(Stmt::Decl(decl))
+            | ModuleItem::ModuleDecl(ModuleDecl::ExportDecl(ExportDecl { decl, .. })) => {
+                self.register_type_decl(decl)
             }
-        }
-    }
-
-    fn visit_mut_ts_type_alias_decl(&mut self, ts_type_alias_decl: &mut TsTypeAliasDecl) {
-        ts_type_alias_decl.visit_mut_children_with(self);
-        if self.options.resolve_type {
-            self.type_aliases.insert(
-                (
-                    ts_type_alias_decl.id.sym.clone(),
-                    ts_type_alias_decl.id.ctxt,
-                ),
-                (*ts_type_alias_decl.type_ann).clone(),
-            );
-        }
+            ModuleItem::ModuleDecl(ModuleDecl::ExportDefaultDecl(ExportDefaultDecl {
+                decl: DefaultDecl::TsInterfaceDecl(interface),
+                ..
+            })) => self.register_interface(interface),
+            _ => {}
+        });
+        items.visit_mut_children_with(self);
     }
 
     fn visit_mut_call_expr(&mut self, call_expr: &mut CallExpr) {
